@@ -37,6 +37,122 @@ type gstate struct {
 
 var bitsClasses = []uint32{0x1d00ffff, 0x1c00ffff, 0x1d00aaaa, 0x207fffff, 0x1d800000, 0x03000000, 0x00123456, 0x21010000, 0x01010000, 0x02000100}
 
+// defBits defines a header with the given bits (patterns that need a known work class).
+func (g *gstate) defBits(prev int, bits uint32) *gnode {
+	id := g.next
+	g.next++
+	ph, pt := 0, uint32(1296688602)
+	if p, ok := g.byID[prev]; ok {
+		ph, pt = p.height, p.time
+	}
+	n := &gnode{id: id, prev: prev, height: ph + 1, time: pt + 600}
+	g.byID[id] = n
+	g.nodes = append(g.nodes, n)
+	if g.blocks {
+		n.ntx = 1 + g.r.Intn(9)
+		fmt.Printf("hdr id=%d prev=%d bits=%d time=%d mr=%d blk=1\n", id, prev, bits, n.time, n.ntx)
+		return n
+	}
+	fmt.Printf("hdr id=%d prev=%d bits=%d time=%d\n", id, prev, bits, n.time)
+	return n
+}
+
+// ancestor returns the id k steps below id (stops at genesis).
+func (g *gstate) ancestor(id, k int) int {
+	for ; k > 0; k-- {
+		n, ok := g.byID[id]
+		if !ok || n.prev < 0 {
+			break
+		}
+		id = n.prev
+	}
+	return id
+}
+
+// straddlePattern: two forks straddling the prune depth, a Clean with a small depth, then heavy headers on
+// the short stale fork (it must still be extendable and able to overtake).
+func (g *gstate) straddlePattern() {
+	if g.forks > 6 || !g.byID[g.focus].alive {
+		return
+	}
+	tip := g.focus
+	for j := 0; j < 12+g.r.Intn(6); j++ {
+		n := g.defBits(tip, 0x1d00ffff)
+		g.sub(n.id)
+		tip = n.id
+	}
+	g.focus = tip
+	back := 9 + g.r.Intn(3)
+	f := g.ancestor(tip, back)
+	fl := 1 + g.r.Intn(2)
+	ft := f
+	for j := 0; j < fl; j++ {
+		n := g.defBits(ft, 0x1d00ffff)
+		g.sub(n.id)
+		ft = n.id
+	}
+	gp := g.ancestor(tip, back-1-g.r.Intn(fl))
+	gt := gp
+	for j := 0; j < back-3+g.r.Intn(3); j++ {
+		n := g.defBits(gt, 0x1d00ffff)
+		g.sub(n.id)
+		gt = n.id
+	}
+	fmt.Println("dump")
+	fmt.Printf("cleand d=%d\n", g.maxd+2+g.r.Intn(3))
+	fmt.Println("dump")
+	for j := 0; j < 1+g.r.Intn(2); j++ {
+		n := g.defBits(ft, 0x1700ffff)
+		g.sub(n.id)
+		ft = n.id
+	}
+	if g.byID[ft].alive {
+		g.focus = ft
+	}
+	fmt.Println("dump")
+}
+
+// forkFirstPattern: the first header of a fork becomes part of the best chain, its competitor is marked
+// invalid (the old branch is trimmed), the chain grows and a Clean with a small depth prunes the fork point.
+func (g *gstate) forkFirstPattern() {
+	if g.forks > 7 || !g.byID[g.focus].alive || g.byID[g.focus].height < 2 {
+		return
+	}
+	comp := g.focus
+	par := g.byID[comp].prev
+	if p, ok := g.byID[par]; !ok || !p.alive || g.best-p.height > g.maxd {
+		return
+	}
+	n := g.defBits(par, 0x1c00ffff)
+	g.sub(n.id)
+	tip := n.id
+	n = g.defBits(tip, 0x1c00ffff)
+	g.sub(n.id)
+	tip = n.id
+	if !g.byID[tip].alive {
+		return
+	}
+	fmt.Println("dump")
+	fmt.Printf("mark id=%d\n", comp)
+	g.marked = append(g.marked, comp)
+	g.kill(comp)
+	g.best = 0
+	for _, c := range g.nodes {
+		if c.alive && c.height > g.best {
+			g.best = c.height
+		}
+	}
+	for j := 0; j < 10+g.r.Intn(8); j++ {
+		n := g.defBits(tip, 0x1d00ffff)
+		g.sub(n.id)
+		tip = n.id
+	}
+	g.focus = tip
+	fmt.Println("dump")
+	fmt.Printf("cleand d=%d\n", g.maxd+2+g.r.Intn(3))
+	fmt.Println("dump")
+}
+
 func (g *gstate) def(prev int) *gnode {
 	id := g.next
 	g.next++
@@ -319,15 +435,18 @@ func gen(seed uint64, scripts int, tier string, profile string) {
 			nops = 30 + r.Intn(220)
 		}
 		pClean, pSL, pCrash, pMark, pLoc, pRefuse, pProof := 0, 0, 0, 0, 0, 0, 0
+		pStraddle, pForkFirst := 0, 0
 		switch profile {
 		case "clean":
 			pClean = 9
+			pStraddle, pForkFirst = 1, 1
 		case "saveload":
 			pSL, pClean = 8, 3
 		case "crash":
 			pCrash, pClean, pSL = 8, 2, 1
 		case "mark":
 			pMark, pClean, pSL = 7, 2, 2
+			pForkFirst = 1
 		case "loc":
 			pLoc, pClean = 10, 3
 		case "refuse":
@@ -337,9 +456,10 @@ func gen(seed uint64, scripts int, tier string, profile string) {
 			g.blocks = true
 		case "mixed":
 			pClean, pSL, pCrash, pMark, pLoc, pRefuse = 4, 3, 1, 2, 3, 2
+			pStraddle, pForkFirst = 1, 1
 		}
 		for i := 0; i < nops; i++ {
-			switch r.Pick(46, 10, 12, 3, 2, 3, pClean, pSL, pCrash, pMark, pLoc, pRefuse, 3, 1, pProof) {
+			switch r.Pick(46, 10, 12, 3, 2, 3, pClean, pSL, pCrash, pMark, pLoc, pRefuse, 3, 1, pProof, pStraddle, pForkFirst) {
 			case 0: // extend the focus chain
 				n := g.def(g.focus)
 				g.sub(n.id)
@@ -425,6 +545,10 @@ func gen(seed uint64, scripts int, tier string, profile string) {
 				fmt.Println("subscribe")
 			case 14:
 				g.proofOp()
+			case 15:
+				g.straddlePattern()
+			case 16:
+				g.forkFirstPattern()
 			}
 		}
 		fmt.Println("dump")
